@@ -9,7 +9,9 @@ mixture (also sized as thread-count multiples +-1) x npartition 1..64 and 65..20
 x float32/float64 x weights none/index/random/constant x sort x nthread 1..16 and -1 (= all 16)
 x box sizes (dyadic, decimal, not representable in float32).  Positions stay in [0, L].
 Exhaustive sub-space: every (N, nthread) with N <= 64 (quick) / 300 (thorough), nthread 1..16,
-on an adversarial particle pattern.
+on an adversarial particle pattern; plus six blocks of 66 000..270 000 particles (uniform, or a slab inside one
+stripe) with 1-2 threads so that one thread's share of one stripe exceeds 2^16 / 2^17 (the per-thread
+histogram cell); the strategy draws such a block in ~1/40 of the cases.
 
 Oracle (none of it re-implements the scatter):
   (i)   rows (x,y,z,w) of the output are a permutation of the input rows (bit patterns, lexicographic sort);
@@ -42,8 +44,8 @@ ASSUMPTIONS = [
     'schedule independence is not sampled directly: every thread owns a private output range, so the result is a function of the thread count, which is enumerated (1..16); run-to-run identity (vi) is a corroborating probe only',
 ]
 EXHAUSTIVE_NOTE = {
-    'quick': 'all (N, nthread) with N in 0..64, nthread in 1..16 (npartition 5, adversarial boundary/duplicate pattern; dtype, weights, sort, coord cycled)',
-    'thorough': 'all (N, nthread) with N in 0..300, nthread in 1..16 (npartition 5, adversarial boundary/duplicate pattern; dtype, weights, sort, coord cycled)',
+    'quick': 'all (N, nthread) with N in 0..64, nthread in 1..16 (npartition 5, adversarial boundary/duplicate pattern; dtype, weights, sort, coord cycled); 6 large blocks (66k..270k particles, >2^16 per thread and stripe)',
+    'thorough': 'all (N, nthread) with N in 0..300, nthread in 1..16 (npartition 5, adversarial boundary/duplicate pattern; dtype, weights, sort, coord cycled); 6 large blocks (66k..270k particles, >2^16 per thread and stripe)',
 }
 BOXES = [1.0, 2.0, 64.0, 100.0, 123.0, 500.0, 1000.0, 2000.0, 0.5, 0.7, 0.1, 123.456, 1e-3, 3.0]
 _last = {'key': None, 'nt': False, 'classes': []}
@@ -137,6 +139,22 @@ def build(d):
             flags['edge'] = True
         pos[i, coord] = x
         xs.append(x)
+    big = d.get('big')
+    if big:
+        # a vectorised block of many more particles (so that one thread's share of one stripe exceeds 2^16): uniform over the
+        # box, or a slab confined to one stripe
+        nb_ = int(big['n'])
+        if not (0 < nb_ <= 400000):
+            raise Reject('big block size')
+        blk = (rng.random((nb_, 3)) * L).astype(T)
+        if big['dist'] == 'slab':
+            s0 = int(big.get('stripe', 0)) % npart
+            blk[:, coord] = ((s0 + 0.05 + 0.9 * rng.random(nb_)) * (L / npart)).astype(T)
+        elif big['dist'] != 'uniform':
+            raise Reject('big block distribution')
+        np.minimum(blk, lmax, out=blk)
+        pos = np.concatenate([pos, blk])
+        n = len(pos)
     wm = d['weights']
     if wm == 'none':
         w = None
@@ -240,6 +258,8 @@ def run_case(d):
         cls.append('has-x=L')
     if n and float(x.min()) == 0.0:
         cls.append('has-x=0')
+    if d.get('big'):
+        cls.append('big-block')
     if flags['dup']:
         cls.append('has-duplicate')
     if flags['edge']:
@@ -349,11 +369,17 @@ def _desc(draw):
         bulk = max(0, min(300, target - len(parts)))
     n = len(parts) + bulk
     npart = draw(st.one_of(st.sampled_from([1, 2, 2, 3, 3, 4, 5, 7, 8, 16, 33, 64]), st.integers(2, 64), st.integers(2, 12), st.integers(max(1, n), max(1, n) + 8), st.integers(65, 200)))
-    return dict(
+    d = dict(
         dtype=dtype, box=float(box), np=npart, coord=draw(st.integers(0, 2)),
         weights=draw(st.sampled_from(['none', 'none', 'index', 'index', 'index', 'rand', 'const', 'other'])),
         sort=draw(st.booleans()), nthread=nthread, parts=parts, bulk=bulk, seed=draw(st.integers(0, 2**31 - 1)),
     )
+    if draw(st.integers(0, 39)) == 0:
+        # rarely: a block large enough that one (thread, stripe) cell of the histogram passes 2^16 / 2^17
+        d['np'] = draw(st.sampled_from([1, 2, 2, 3, 4]))
+        d['nthread'] = draw(st.sampled_from([1, 1, 2, 3, 16]))
+        d['big'] = dict(n=draw(st.sampled_from([65536, 70001, 131073, 150000, 200000])), dist=draw(st.sampled_from(['uniform', 'slab'])), stripe=draw(st.integers(0, 3)))
+    return d
 
 
 def strategy(tier):
@@ -379,3 +405,12 @@ def exhaustive(tier, shard, nshards):
                     nthread=nthread, parts=parts, bulk=0, seed=n,
                 )
             i += 1
+    # a few blocks with more than 2^16 / 2^17 particles in one thread's share of one stripe
+    for k, (nb_, npart, nthread, dist) in enumerate(_BIG):
+        if i % nshards == shard:
+            yield dict(dtype='float32' if k % 2 else 'float64', box=[1.0, 123.0, 0.7][k % 3], np=npart, coord=k % 3, weights='index' if k % 2 else 'none', sort=bool(k % 3 == 0),
+                       nthread=nthread, parts=[_PATTERN[j] for j in range(5)], bulk=0, seed=k, big=dict(n=nb_, dist=dist, stripe=k))
+        i += 1
+
+
+_BIG = [(70001, 1, 1, 'uniform'), (140001, 2, 1, 'uniform'), (150000, 4, 2, 'slab'), (66000, 3, 1, 'slab'), (200000, 2, 2, 'uniform'), (270000, 2, 2, 'slab')]
